@@ -383,9 +383,9 @@ class Driver:
         s["base"] = op.get("base", 0)
         s["tbase"] = op.get("tbase", 0)
         self.emit({"e": "SignalDef", "id": op["id"], "src": op["src"], "st": op.get("st", 0), "dt": op["dt"],
-                   "bits": DTYPES[op["dt"]][1] if op["dt"] in DTYPES else 0, "rate": op.get("rate", 1000),
-                   "spd": op.get("spd", 0), "sdf": op.get("sdf", 0), "eps": op.get("eps", 0), "sumdf": op.get("sumdf", 0),
-                   "adf": op.get("adf", 0), "udf": op.get("udf", 0), "name": str_tok(name), "units": str_tok(units),
+                   "bits": DTYPES[op["dt"]][1] if op["dt"] in DTYPES else 0, "rate": _clip(op.get("rate", 1000)),
+                   "spd": _clip(op.get("spd", 0)), "sdf": _clip(op.get("sdf", 0)), "eps": _clip(op.get("eps", 0)), "sumdf": _clip(op.get("sumdf", 0)),
+                   "adf": _clip(op.get("adf", 0)), "udf": _clip(op.get("udf", 0)), "name": str_tok(name), "units": str_tok(units),
                    "maxlen": max([len(s) for s in (name, units) if s is not None] + [0]),
                    "rc": rc, "w": self.wspan(w0)})
 
